@@ -281,7 +281,7 @@ impl Part for PartitionPart {
             .boxed()
     }
     fn cases(&self, tier: Tier) -> u64 {
-        tier.pick(30_000, 1_500_000)
+        tier.pick(90_000, 1_500_000)
     }
     fn exec(&self, c: &C05Case, out: &mut CaseOut) -> Result<(), Fail> {
         exec(c, out)
